@@ -12,6 +12,19 @@ TB_A = ("Trusted: CPython operator dispatch on engine.forksym.Lin, z3 linear ari
         "Stubs: tqdm -> identity, stderr -> sink.")
 
 CHECKS = {
+    "C02": dict(
+        technique="bounded symbolic execution (five affine costs, z3 LIA) of sreconcile_extended_spfs / base_spfs vs. independent enumerator of mappings x root orders x labellings",
+        text="For every structural input in the bound and EVERY non-negative integer cost vector in the coherent region (sloss = 0 included), on every "
+             "feasible path of the real ordered solvers (any, all; finite and infinite transfer cost; optional prescribed root order) z3 proves the "
+             "returned solutions valid and no dearer than every oracle solution; emptiness is compared with the oracle's; base variant against the "
+             "oracle restricted to the independently computed LCA mapping.",
+        design="5/C02", engine="forksym"),
+    "C03": dict(
+        technique="bounded symbolic execution (five affine costs, z3 LIA) of usreconcile_extended_uspfs / base_uspfs vs. independent enumerator of mappings x family-set labellings",
+        text="For every structural input in the bound and EVERY non-negative integer cost vector in the coherent region, on every feasible path of "
+             "SuperDTL and its base variant (any, all; finite and infinite transfer cost) z3 proves the returned solutions valid and no dearer than "
+             "every (mapping, labelling) of the oracle, whose labellings range over every content between required and allowed.",
+        design="5/C03", engine="forksym"),
     "C17": dict(
         technique="bounded symbolic execution (symbolic array elements, z3 LIA, ite model of min) of RangeMinQuery; py2smt bit-vector proof of _ilog2; exhaustive structural enumeration for ancestry queries",
         text="RangeMinQuery's real constructor and query run on unconstrained symbolic integers; for every range of every length in the bound z3 "
